@@ -554,6 +554,24 @@ impl Litep2p {
     }
 }
 
+#[cfg(litep2p_verif)]
+impl Litep2p {
+    /// Stored addresses of `peer` with their scores (verification only).
+    pub fn verif_peer_addresses(&self, peer: &PeerId) -> Vec<(Multiaddr, i32)> {
+        self.transport_manager.verif_peer_addresses(peer)
+    }
+
+    /// Debug rendering of the manager's state for `peer` (verification only).
+    pub fn verif_peer_state(&self, peer: &PeerId) -> Option<String> {
+        self.transport_manager.verif_peer_state(peer)
+    }
+
+    /// Number of pending connections in the manager (verification only).
+    pub fn verif_pending_connections(&self) -> usize {
+        self.transport_manager.verif_pending_connections()
+    }
+}
+
 #[cfg(test)]
 mod tests {
     use crate::{
